@@ -51,13 +51,20 @@ class Row:
     kind: 'D3' (guaranteed by the verifier / another checked rule), 'D4' (outside the property's
     stated precondition), 'A' (recorded assumption about the environment)."""
 
-    def __init__(self, rid, fn_re, desc_re, kind, reason, cites=()):
+    def __init__(self, rid, fn_re, desc_re, kind, reason, cites=(), pred=None):
         self.rid, self.fn_re, self.desc_re = rid, re.compile(fn_re), re.compile(desc_re, re.S)
         self.kind, self.reason, self.cites = kind, reason, cites
+        self.pred = pred        # optional further condition on the site (e.g. "not reachable from inside the loop")
         self.hits = 0
 
     def matches(self, site):
-        return bool(self.fn_re.search(site.fn) and self.desc_re.search(site.desc or ""))
+        return bool(self.fn_re.search(site.fn) and self.desc_re.search(site.desc or "") and (self.pred is None or self.pred(site)))
+
+
+def loop_reach(F, loop_node):
+    """functions (and closures) that can run inside the given loop: those referenced in its THIR and what they reach"""
+    from dispatch import thir_reach, thir_local_callees
+    return thir_reach(F, sorted(thir_local_callees(F, {"thir": {"body": loop_node}})))
 
 
 def site_key(site):
